@@ -143,6 +143,15 @@ def parse_template(text, tmpl_name):
             f = [x.strip() for x in s[len("//@type "):].split(" :: ")]
             d = {"file": f[0], "kind": f[1], "name": f[2], "opts": f[3:], "tmpl": tmpl_name, "lineno": i + 1}
             segs.append(("type", d))
+        elif s.startswith("//@kvconsts "):
+            if buf:
+                segs.append(("text", "\n".join(buf))); buf = []
+            segs.append(("kvconsts", {"file": s[len("//@kvconsts "):].strip(), "tmpl": tmpl_name}))
+        elif s.startswith("//@leaf_type "):
+            if buf:
+                segs.append(("text", "\n".join(buf))); buf = []
+            f = [x.strip() for x in s[len("//@leaf_type "):].split(" :: ")]
+            segs.append(("leaf_type", {"file": f[0], "macro": f[1], "type": f[2], "tags": f[3].split() if len(f) > 3 else [], "tmpl": tmpl_name}))
         elif s.startswith("//@tagged "):
             buf.append(l)
         elif s.startswith("//@"):
@@ -1101,3 +1110,82 @@ def emit_text(seg, tmpl, em):
             em.functions.append({"key": fnkey, "file": "verif:" + tmpl, "lines": [0, 0], "sha256": "", "tags": tags,
                                  "gen_lines": [l0, l1], "rewrites": [], "name": name, "header": "template"})
         i += 1
+
+
+def emit_kvconsts(d, repo, em):
+    """R-kv-const: every `known_value_constant!(NAME, n, "s");` becomes its expansion
+    `pub const NAME: KnownValue = KnownValue::new_with_static_name(n, "s")`, with the const fn's body
+    `Self { value, assigned_name: Some(KnownValueName::Static(name)) }` inlined so that the constant is usable in specs."""
+    sf = repo.file(d["file"])
+    n = 0
+    for it in sf.items:
+        if it.kind == "macro" and it.name == "known_value_constant":
+            toks = code_toks(lex(it.text))
+            # known_value_constant ! ( NAME , value , "name" ) ;
+            try:
+                o = next(i for i, t in enumerate(toks) if t.text == "(")
+                name, value, sname = toks[o + 1].text, toks[o + 3].text, toks[o + 5].text
+            except (StopIteration, IndexError):
+                raise GenError("%s: cannot parse %s" % (d["file"], it.text))
+            if not value.replace("_", "").isdigit():
+                raise GenError("%s: known_value_constant value is not a literal: %s" % (d["file"], it.text))
+            em.add("    // @src %s:%d %s" % (it.file, it.line0, it.text.strip()))
+            em.add("    pub const %s: KnownValue = KnownValue { value: %s, assigned_name: Some(KnownValueName::Static(%s)) };" % (name, value, sname))
+            em.add("    pub const %s_RAW: u64 = %s;" % (name, value))
+            n += 1
+    em.rewrites.append("%s: R-kv-const: %d known_value_constant! invocations expanded to their definition" % (d["file"], n))
+
+
+def emit_leaf_type(d, repo, em):
+    """R-macro-expand: `impl_envelope_encodable!(T);` expanded from the macro_rules definition in the same file
+    (`impl From<T> for Envelope { fn from(value: T) -> Self { Envelope::new_leaf(value) } }`), with the contract
+    `r == leaf_env(<CBOR as From<T>>::from_spec(value))`, plus the instance of the blanket
+    `impl<T: Into<Envelope> + Clone> EnvelopeEncodable for T` at this type."""
+    sf = repo.file(d["file"])
+    ty = d["type"]
+    mdef = [it for it in sf.items if it.kind == "macro" and it.name == "macro_rules" and ("macro_rules! %s" % d["macro"]) in it.text.replace("macro_rules !", "macro_rules!")]
+    if not mdef:
+        raise GenError("%s: macro_rules! %s not found" % (d["file"], d["macro"]))
+    inv = [it for it in sf.items if it.kind == "macro" and it.name == d["macro"] and re.sub(r"\s+", "", it.text) in ("%s!(%s);" % (d["macro"], ty), "%s!(dcbor::%s);" % (d["macro"], ty))]
+    if not inv:
+        raise GenError("%s: invocation %s!(%s) not found" % (d["file"], d["macro"], ty))
+    mtext = mdef[0].text
+    toks = code_toks(lex(mtext))
+    # single arm: ( $type : ty ) => { BODY }
+    k = next(i for i, t in enumerate(toks) if t.text == "=>")
+    bo = k + 1
+    bc = match_close(toks, bo)
+    body = mtext[toks[bo].end:toks[bc].start]
+    pm = re.search(r"\(\s*\$(\w+)\s*:\s*ty\s*\)", mtext)
+    if not pm:
+        raise GenError("%s: macro %s: unexpected matcher" % (d["file"], d["macro"]))
+    body = body.replace("$" + pm.group(1), ty)
+    # inject the contract on `fn from`
+    sh = parse_fn(body[body.index("fn from"):], "from")
+    off = body.index("fn from")
+    rt0, rt1 = off + sh.ret_start, off + sh.ret_end
+    fnkey = "%s:%s!(%s)::from" % (d["file"], d["macro"], ty)
+    obid = fnkey + "#ens1"
+    contract = "\n        ensures\n            r == leaf_env(<CBOR as vstd::std_specs::convert::FromSpec<%s>>::from_spec(value)),  /*@ob %s*/\n    " % (ty, obid)
+    new_body = body[:rt0] + "(r: %s)" % body[rt0:rt1] + body[rt1:off + sh.sig_end] + contract + body[off + sh.sig_end:]
+    em.add("    // @src %s:%d %s  (expanded from macro_rules! %s at line %d)" % (sf.rel, inv[0].line0, inv[0].text.strip(), d["macro"], mdef[0].line0))
+    em.add("impl vstd::std_specs::convert::FromSpecImpl<%s> for Envelope {" % ty)
+    em.add("    open spec fn obeys_from_spec() -> bool { true }")
+    em.add("    open spec fn from_spec(value: %s) -> Self { leaf_env(<CBOR as vstd::std_specs::convert::FromSpec<%s>>::from_spec(value)) }" % (ty, ty))
+    em.add("}")
+    start = em.lineno
+    em.add(new_body.strip("\n"))
+    end = em.lineno - 1
+    for ln in range(start, end + 1):
+        if "/*@ob %s*/" % obid in em.lines[ln - 1]:
+            em.obs[obid] = {"id": obid, "kind": "ensures", "fn": fnkey, "tags": list(d["tags"]), "text": "r == leaf_env(from_spec(value))", "lines": [ln]}
+    em.fn_ranges.append((start, end, fnkey, list(d["tags"])))
+    em.functions.append({"key": fnkey, "file": sf.rel, "lines": [inv[0].line0, inv[0].line1], "sha256": mdef[0].sha, "tags": list(d["tags"]),
+                         "gen_lines": [start, end], "rewrites": ["R-macro-expand: %s!(%s)" % (d["macro"], ty)], "name": "from", "header": "macro"})
+    em.rewrites.append("%s: R-macro-expand: %s!(%s) expanded from its macro_rules definition" % (sf.rel, d["macro"], ty))
+    # blanket EnvelopeEncodable instance (body of the blanket impl: `self.into()`)
+    em.add("impl EnvelopeEncodable for %s {" % ty)
+    em.add("    open spec fn enc_wf(self) -> bool { true }")
+    em.add("    open spec fn enc_spec(self) -> Envelope { leaf_env(<CBOR as vstd::std_specs::convert::FromSpec<%s>>::from_spec(self)) }" % ty)
+    em.add("    fn into_envelope(self) -> (r: Envelope) { self.into() }")
+    em.add("}")
